@@ -3,6 +3,10 @@
 import json, os
 ROOT = os.path.dirname(os.path.dirname(os.path.abspath(__file__)))
 CLAIMED = {
+ 'C01': dict(
+    text='Bounded symbolic model checking of the real code: the whole pipeline (Lexer::next, Parser and grammar::{root, operation, value}, the Query iterator, eval::eval with its OPERATION/NUMBER/PERCENTAGE arms, eval::{add,sub,mul,div,pow}, the Rational operators) is executed from the dev and release MIR on query templates L0 o1 L1 o2 L2 .. with every placement of parentheses and optional percent signs; every operator character is a solver variable over + - * / ^ (the lexer\'s branches on it are decided by feasibility queries) and every literal\'s value is an unbounded symbolic rational (the literal reader is cut at the literal\'s span; C07 proves that cut function exact); on every path z3 proves the result equal to an independent exact evaluator applied to the reference parse, DivideByZero reported exactly when the reference divides by zero (including zero to a negative power) and never a number in that case. Counterexamples are rendered as query text and replayed on the native dev and release builds.',
+    note='Trusted: MIR dump, mirsym + models (num as Int/Real, syntree builder/tree model, str/Vec/VecDeque), spec/exprs.py, the rational-function normal form that turns value equalities into expanded polynomial disequalities before z3 decides them, z3 (nonlinear real arithmetic). Outside: more than 4 (thorough 5) operands, exponents beyond [-3,3], non-integer exponents (C04), digits of literals (C07).',
+    design='§5 C01', technique='symbolic execution of rustc MIR (dev+release) with symbolic operator characters + z3 nonlinear real arithmetic, replay on native builds'),
  'C07': dict(
     text='Bounded symbolic model checking of the real code: <Rational as FromStr>::from_str and Lexer::next are executed from the MIR of /repo\'s current tree over ALL ASCII strings up to the stated length (bytes are solver variables, byte classes split by feasibility queries); every accepted grammar literal\'s value is proved (z3 unsat) equal to an independent literal semantics with an unbounded exponent; solver models are replayed against the native dev and release builds before a violation is reported.',
     note='Trusted: rustc\'s MIR dump, the mirsym executor and its library models (num BigInt/Ratio as Int/Real, str/iterator/Option plumbing), z3. Outside the claim: literals longer than the bound, num-bigint itself.',
@@ -73,6 +77,6 @@ def main():
         'notes': 'exit 0 = held within stated bounds; 1 = replay-confirmed violation (VIOLATION line); 2 = inconclusive (unsupported construct, solver unknown, model mismatch, build failure). Known findings: known_findings.json.',
     }
     json.dump(man, open(os.path.join(ROOT, 'MANIFEST.json'), 'w'), indent=1)
-HOOK_COMMITS = []
+HOOK_COMMITS = ['fff8c40']
 if __name__ == '__main__':
     main()
